@@ -350,6 +350,10 @@ def mode_inproc(job: dict[str, Any], outp: str) -> None:
         o["_raw"]["wall_s"] = round(time.monotonic() - t0, 3)
         res.append({"id": case["id"], "o": o})
     Path(outp).write_text(json.dumps(res, default=str))
+    # this interpreter's own shutdown is not part of any observation (and a handler the code under
+    # test left open could block logging.shutdown())
+    sys.stdout.flush()
+    os._exit(0)
 
 
 def mode_cli(job: dict[str, Any], outp: str) -> None:
@@ -358,7 +362,9 @@ def mode_cli(job: dict[str, Any], outp: str) -> None:
     cap = setup_logging()
     case = job["cases"][0]
     o, status = one_case(case, job, cap)
-    Path(outp).write_text(json.dumps([{"id": case["id"], "o": o}], default=str))
+    tmp = Path(outp + ".tmp")
+    tmp.write_text(json.dumps([{"id": case["id"], "o": o}], default=str))
+    tmp.rename(outp)  # atomically: the parent starts its exit watchdog when the file appears
     sys.stdout.flush()
     kind, val = status
     if kind == "return":
